@@ -604,7 +604,7 @@ func writeEvidence(vdir string, pr *Property, c *Ctx, p *Prog, tier, cfgName str
 	seed := 0
 	fmt.Sscanf(os.Getenv("VERIF_SEED"), "%d", &seed)
 	cov := map[string]interface{}{
-		"explanation":            pr.Explain + " NOT COVERED: " + pr.NotCov,
+		"explanation":            explanationOf(vdir, pr),
 		"obligations":            len(c.Obs),
 		"discharged":             nDis,
 		"violated_unlisted":      nVio,
